@@ -123,6 +123,12 @@ fn snap_diff(a: &Snap, b: &Snap) -> Vec<String> {
 
 /// `realpath -m`: follow symlinks component by component, keep components that do not exist.
 fn real_location(p: &Path) -> Option<PathBuf> {
+    real_location2(p).and_then(|(l, clean)| clean.then_some(l))
+}
+
+/// Second value false = a `..` was applied after a missing component: the operating system cannot resolve
+/// such a path at all (ENOENT), so it has no real location.
+fn real_location2(p: &Path) -> Option<(PathBuf, bool)> {
     let mut todo: Vec<std::ffi::OsString> = vec![];
     let push_rev = |todo: &mut Vec<std::ffi::OsString>, q: &Path| {
         let comps: Vec<_> = q.components().collect();
@@ -140,12 +146,17 @@ fn real_location(p: &Path) -> Option<PathBuf> {
     push_rev(&mut todo, &abs);
     let mut cur = PathBuf::from("/");
     let mut hops = 0;
+    let mut missing = false;
+    let mut clean = true;
     while let Some(c) = todo.pop() {
         if c == "/" {
             cur = PathBuf::from("/");
             continue;
         }
         if c == ".." {
+            if missing {
+                clean = false;
+            }
             cur.pop();
             continue;
         }
@@ -160,10 +171,20 @@ fn real_location(p: &Path) -> Option<PathBuf> {
                 // relative targets resolve against `cur`; absolute ones restart at "/"
                 push_rev(&mut todo, &t);
             }
-            _ => cur = next,
+            Ok(md) => {
+                // a regular file in the middle of a path cannot be traversed either
+                if !md.is_dir() && !todo.is_empty() {
+                    missing = true;
+                }
+                cur = next
+            }
+            Err(_) => {
+                missing = true;
+                cur = next
+            }
         }
     }
-    Some(cur)
+    Some((cur, clean))
 }
 
 fn inside(loc: &Path, root_real: &Path) -> bool {
@@ -574,7 +595,7 @@ fn gen_to_folder(r: &mut SplitMix64) -> Case {
         op: "to_folder".into(),
         id,
         aux: format!("{field}|{layout}"),
-        class: format!("to_folder:{field}:{layout}"),
+        class: format!("to_folder+{field}"),
     }
 }
 
